@@ -56,9 +56,17 @@ def value(v: dict):
     return InitialAssignment(fn=_fn(v["fn"]), args=list(v["args"]))
 
 
-def surrogate(s: dict):
+def surrogate(s: dict, qss: bool = False):
+    """The two-output surrogate of the specification, rendered as the mock surrogate or (same meaning) as the
+    shipped quasi-steady-state surrogate."""
     from mxlpy.surrogates.abstract import MockSurrogate
 
+    st = {o: {v: coef_sur(co) for v, co in row.items()} for o, row in s["st"].items()}
+    if qss:
+        from mxlpy.surrogates import qss as qss_mod
+
+        return qss_mod.Surrogate(model=fnlib.pair(*s["fns"]), args=list(s["args"]), outputs=list(s["outs"]),
+                                 stoichiometries=st)
     return MockSurrogate(
         fn=fnlib.pair(*s["fns"]),
         args=list(s["args"]),
@@ -109,7 +117,7 @@ def build_model(c: dict, rnd: random.Random | None = None):
             m.add_reaction(n, _fn(r["fn"]), args=list(r["args"]),
                            stoichiometry={v: coef(co) for v, co in r["st"].items()})
         elif kind == "sur":
-            m.add_surrogate(n, surrogate(c["sur"][n]))
+            m.add_surrogate(n, surrogate(c["sur"][n], qss=rnd is not None and rnd.random() < 0.5))
         elif kind == "ro":
             m.add_readout(n, _fn(c["ro"][n]["fn"]), args=list(c["ro"][n]["args"]))
         elif kind == "data":
